@@ -556,7 +556,18 @@ func PaintWideFixed() []*Scn {
 	root := func(kids ...KD) *SD {
 		return &SD{W: 10, H: 2, Fg: 1, Writes: [][3]int{{0, 1, '世'}, {2, 1, '界'}, {4, 1, 'z'}, {8, 1, '世'}}, Kids: kids}
 	}
-	return []*Scn{{Kind: "paint", Cols: 10, Rows: 2, Frames: []*SD{
+	// a wide character in the last column of a surface does not fit and is not shown (its row is not judged);
+	// the rows below it are painted as ever: the cell in their first column too
+	edge := func(kids ...KD) *SD {
+		return &SD{W: 3, H: 3, Fg: 1, Writes: [][3]int{{0, 0, 'a'}, {1, 0, 'b'}, {2, 0, '世'}, {0, 1, 'Ω'}, {1, 1, 'c'}, {2, 1, '界'}, {0, 2, 'd'}}, Kids: kids}
+	}
+	edges := &Scn{Kind: "paint", Cols: 6, Rows: 3, Frames: []*SD{
+		edge(),
+		edge(KD{X: 1, Y: 1, Z: 1, S: &SD{W: 2, H: 2, Fg: 3, Writes: [][3]int{{0, 0, 'p'}, {1, 0, '好'}, {0, 1, 'q'}, {1, 1, 'r'}}}}),
+		{W: 1, H: 3, Fg: 2, Writes: [][3]int{{0, 0, '世'}, {0, 1, 'Ω'}, {0, 2, '界'}}},
+		edge(),
+	}}
+	return []*Scn{edges, {Kind: "paint", Cols: 10, Rows: 2, Frames: []*SD{
 		root(),
 		root(low(), KD{X: 1, Y: 0, Z: 1, S: &SD{W: 1, H: 1, Fg: 3, Writes: [][3]int{{0, 0, 'x'}}}}),
 		root(low(), KD{X: 1, Y: 0, Z: 1, S: &SD{W: 2, H: 2, Fg: 3, Writes: [][3]int{{0, 0, '世'}, {0, 1, '界'}}}}),
